@@ -1434,6 +1434,9 @@ func (se *SessionExecutor) rollback() (err error) {
 	se.status &= ^mysql.ServerStatusInTrans
 	for _, pc := range se.txConns {
 		if pc.IsClosed() {
+			// nothing to roll back on a dead connection, but its pool slot must be given back
+			pc.Close()
+			pc.Recycle()
 			continue
 		}
 		err = pc.Rollback()
